@@ -31,7 +31,11 @@ RULE = ('histories: typed random walk (8-14 steps after set-up) over the public 
         'make_U_II / extract_segment / plus_identity / the constructor, then sort_legcharges, group_sites, '
         'enlarge_mps_unit_cell, set_W, edits of IdL on the derived object while every other live MPO (IdL, IdR, chi, W '
         'tensors, dense operator selected by IdL/IdR) and the caller-owned arguments are watched; MPS: constructor with '
-        'caller-owned Bs/SVs/form lists, psi.copy() + in-place methods, from_full, enlarge_mps_unit_cell, get_B(copy=...).')
+        'caller-owned Bs/SVs/form lists, psi.copy() + in-place methods, from_full, enlarge_mps_unit_cell, get_B(copy=...); '
+        'kind=net: every getter / measurement / derivation / constructor / in-place method of MPS and MPO, environments, and '
+        'two-operand functions (overlap, add, MPSEnvironment, MPOEnvironment, TransferMatrix, correlation functions with '
+        'bra != ket) on pairs of MPS with differently gauged total charge / different sectors / segments, observing stored '
+        'tensors (values, leg charges, qtotal), get_total_charge() and the identities of the _B/_S entries.')
 TRUSTED = ['Lean 4.33 kernel; axioms of every C03_* theorem ⊆ {propext, Classical.choice, Quot.sound}',
            'hand-written heap model lean/TenpyModel/C03/{Heap,Ops,Calls}.lean, tied to tenpy/linalg/np_conserved.py, '
            'charges.py and _npc_helper.pyx by this correspondence run: the sharing relation (which list / array / buffer '
